@@ -67,7 +67,7 @@ def apply(ctx, W):
         "semantic: &SemanticState, module: &crate::semantic::Module, resolvee_path: &ItemPath, definition: &grammar::TypeDefinition",
         "&*semantic, module, resolvee_path, definition",
         outs=["pending_regions", "vftable_functions"], types=["Vec<(Option<usize>, Region)>", "Option<Vec<Function>>"],
-        kind="try-opt", tags=("C01", "C03", "C04", "C10", "C11", "C12", "C17", "C20"), ensures=[
+        kind="try-opt", tags=("C01", "C03", "C04", "C10", "C11", "C12", "C17", "C20"), requires=["reg_wf(&semantic.type_registry)"], ensures=[
             ("""res is Ok && res->Ok_0 is Some ==> fields_built(&semantic.type_registry, module_scope(module), definition.statements@, definition.statements@.len() as int, (res->Ok_0->0).0@)""",
              ("C01", "C03", "C10", "C11", "C17", "C20"), "fields-built"),
             ("""res is Ok && res->Ok_0 is Some ==> ((res->Ok_0->0).1 is Some <==> first_is_vftable(definition.statements@))""", ("C04", "C06"), "fields-vftable-present"),
@@ -84,6 +84,7 @@ def apply(ctx, W):
     rules.let_type(fw, top_let("vftable_functions"), "Option<Vec<Function>>")
     rules.for_to_index_loop(ctx, fw, u2, l_stmts, seq="definition.statements", ivar="i_s")
     rules.index_loop_spec(ctx, fw, u2, l_stmts, tags=("C01", "C03"), invariants=[
+        ("reg_wf(&semantic.type_registry)", ("C01",)),
         ("fields_built(&semantic.type_registry, module_scope(module), definition.statements@, i_s as int, pending_regions@)", ("C01", "C03", "C10", "C11", "C17", "C20")),
         ("vftable_functions is Some <==> (i_s > 0 && first_is_vftable(definition.statements@))", ("C04", "C06")),
         ("""vftable_functions is Some ==> ({
@@ -98,12 +99,14 @@ def apply(ctx, W):
     ])
     rules.for_to_index_loop(ctx, fw, u2, l_fattr, seq="attributes.0", ivar="i_b")
     rules.index_loop_spec(ctx, fw, u2, l_fattr, tags=("C01", "C03"), invariants=[
+        ("reg_wf(&semantic.type_registry)", ("C01",)),
         ("""attr_usize(attributes.0@, "address"@, i_b as int, address)""", ("C01", "C03", "C20")),
         ("""is_base == has_ident(attributes.0@, "base"@, i_b as int)""", ("C06", "C07")),
     ])
     ghost(ctx, fw, u2, body_start(l_fattr), 'proof { reveal_strlit("address"); reveal_strlit("base"); }')
     rules.for_to_index_loop(ctx, fw, u2, l_vattr, seq="attributes.0", ivar="i_c")
     rules.index_loop_spec(ctx, fw, u2, l_vattr, tags=("C04",), invariants=[
+        ("reg_wf(&semantic.type_registry)", ("C01",)),
         ("""attr_usize(attributes.0@, "size"@, i_c as int, size)""", ("C04",)),
     ])
     ghost(ctx, fw, u2, body_start(l_vattr), 'proof { reveal_strlit("size"); }')
